@@ -457,6 +457,16 @@ func (a *asset) generateTimelineEntries(repID string, wt wrapTimes, atoMS int) s
 		mediaTimescale: uint32(rep.MediaTimescale),
 	}
 
+	if atoMS > 0 && a.LoopDurMS > 0 {
+		// Let the availability time offset carry over loop boundaries
+		nowRelMS := wt.nowRelMS + atoMS
+		wt.nowWraps += nowRelMS / a.LoopDurMS
+		wt.nowRelMS = nowRelMS % a.LoopDurMS
+		startRelMS := wt.startRelMS + atoMS
+		wt.startWraps += startRelMS / a.LoopDurMS
+		wt.startRelMS = startRelMS % a.LoopDurMS
+		atoMS = 0
+	}
 	ato := uint64(atoMS * rep.MediaTimescale / 1000)
 
 	relStartTime := uint64(wt.startRelMS * rep.MediaTimescale / 1000)
